@@ -8,7 +8,7 @@ wt=/tmp/mt/$name
 rm -rf "$wt"; mkdir -p /tmp/mt
 git -C /repo worktree add -q --detach "$wt" HEAD || exit 2
 trap 'git -C /repo worktree remove --force "$wt" 2>/dev/null; rm -rf "$wt" /tmp/mt-out/$name' EXIT INT TERM
-git -C "$wt" apply /verif/seeded/$name/patch.diff || { echo "patch does not apply"; exit 2; }
+git -C "$wt" apply /verif/seeded/$name/patch.diff 2>/dev/null || { b=$(python3 -c "import json;print(json.load(open(\"/verif/seeded/$name/meta.json\"))[\"base_commit\"])"); echo "patch does not apply to HEAD: using base commit $b"; git -C "$wt" checkout -q $b && git -C "$wt" apply /verif/seeded/$name/patch.diff || { echo "patch does not apply"; exit 2; }; }
 cd /verif
 for p in "$@"; do
   out=$(VERIF_REPO=$wt VERIF_OUT=/tmp/mt-out/$name ./bin/check "$p" --tier quick ${RUNS:+--runs $RUNS} 2>&1); rc=$?
